@@ -11,7 +11,8 @@
 #   statements     x = e      a, b = e1, e2      a, b = divmod(e, c)      x op= e   (+ - * // % & | ^ << >>)
 #                  for i in range(e) / range(e1, e2) / range(e1, e2, c): body   (no break/continue/else/return)
 #                  if / elif / else (a branch may `return`; not inside a loop)       return e        pass
-#                  docstrings;   y = bytearray(x) / bytes(x) / memoryview(x) / x   for an array x (alias)
+#                  docstrings;   y = bytearray(x) / bytes(x) / memoryview(x) / x / coerce(x)   for an array x (alias;
+#                  coerce = a helper that returns its argument, bytearray(arg) or bytes(arg), or raises, under type tests)
 #                  type guards on an array argument, dropped (the model's inputs ARE byte arrays):
 #                      if not isinstance(x, bytearray): raise ...     if type(x) is not bytearray: raise ...
 #                      (also with a tuple of byte-array types) and a statement call `check(x)` of a helper whose
@@ -251,6 +252,9 @@ class FnTr:
                     elif (builtin and f == "isinstance" and len(n.args) == 2 and isinstance(n.args[0], ast.Name)
                           and self.is_array_type_expr(n.args[1])):
                         new = n.args[0].id
+                    elif f in self.mod.funcs and f != self.fn.name and self.tr.coercion(f):
+                        if len(n.args) == 1 and isinstance(n.args[0], ast.Name):
+                            new = n.args[0].id
                     elif f in self.mod.funcs and f != self.fn.name:
                         callee = self.tr.fn(f)
                         for p, arg in zip(callee.params, n.args):
@@ -276,9 +280,54 @@ class FnTr:
         self.arrays = arr
         return arr
 
+    def is_coercion_helper(self):
+        """a one-parameter helper that, on a byte array, returns the array (itself or as bytearray/bytes) or raises:
+        only docstrings, pass, raise, `return p | bytearray(p, ..) | bytes(p)`, and if/elif/else whose tests are
+        isinstance / type tests on the parameter"""
+        if len(self.params) != 1 or self.defaults:
+            return False
+        p = self.params[0]
+
+        def ret_ok(v):
+            if isinstance(v, ast.Name):
+                return v.id == p
+            return (isinstance(v, ast.Call) and isinstance(v.func, ast.Name) and v.func.id in ARRAY_TYPES
+                    and self.mod.bind_count.get(v.func.id, 0) == 0 and v.args and isinstance(v.args[0], ast.Name)
+                    and v.args[0].id == p and all(isinstance(a, ast.Constant) for a in v.args[1:]) and not v.keywords)
+
+        def test_ok(t):
+            if isinstance(t, ast.UnaryOp) and isinstance(t.op, ast.Not):
+                return test_ok(t.operand)
+            if isinstance(t, ast.BoolOp):
+                return all(test_ok(v) for v in t.values)
+            if isinstance(t, ast.Call) and isinstance(t.func, ast.Name) and t.func.id == "isinstance" and len(t.args) == 2:
+                return isinstance(t.args[0], ast.Name) and t.args[0].id == p
+            if isinstance(t, ast.Compare) and len(t.ops) == 1 and isinstance(t.ops[0], (ast.Is, ast.IsNot, ast.Eq, ast.NotEq)):
+                c = t.left
+                return (isinstance(c, ast.Call) and isinstance(c.func, ast.Name) and c.func.id == "type" and len(c.args) == 1
+                        and isinstance(c.args[0], ast.Name) and c.args[0].id == p)
+            return False
+
+        def stmts_ok(stmts):
+            for s in stmts:
+                if is_docstring(s) or isinstance(s, (ast.Pass, ast.Raise)):
+                    continue
+                if isinstance(s, ast.Return) and s.value is not None and ret_ok(s.value):
+                    continue
+                if isinstance(s, ast.If) and test_ok(s.test) and stmts_ok(s.body) and stmts_ok(s.orelse):
+                    continue
+                return False
+            return True
+        return stmts_ok(self.body) and contains_return(self.body)
+
     def alias_source(self, e, arr):
         if isinstance(e, ast.Name) and e.id in arr:
             return e.id
+        if (isinstance(e, ast.Call) and isinstance(e.func, ast.Name) and e.func.id in self.mod.funcs
+                and e.func.id not in self.locals and self.mod.bind_count.get(e.func.id) == 1 and e.func.id != self.fn.name
+                and len(e.args) == 1 and not e.keywords and isinstance(e.args[0], ast.Name) and e.args[0].id in arr
+                and e.func.id not in self.tr._active and self.tr.coercion(e.func.id)):
+            return e.args[0].id
         if (isinstance(e, ast.Call) and isinstance(e.func, ast.Name) and e.func.id in ARRAY_TYPES
                 and e.func.id not in self.locals and self.mod.bind_count.get(e.func.id, 0) == 0
                 and len(e.args) == 1 and not e.keywords and isinstance(e.args[0], ast.Name) and e.args[0].id in arr):
@@ -676,6 +725,13 @@ class Translator:
             finally:
                 self._active.pop()
         return self._fn[f]
+
+    def coercion(self, f):
+        """is module function f a byte-array coercion helper (identity on byte arrays)?"""
+        try:
+            return FnTr(self, self.mod.funcs[f]).is_coercion_helper()
+        except Untranslatable:
+            return False
 
     def need(self, f):
         if f in self._active:
